@@ -77,7 +77,16 @@ func (b bboltBucket) Get(k []byte) []byte {
 	}
 	defer b.guard.exit()
 	// Not huge fan of this b.bb business but it's explicit.
-	return b.bb.Get(k)
+	v := b.bb.Get(k)
+	if b.bb.Writable() {
+		/* Bbolt values point into the memory map and are only valid until the
+		 * transaction ends. Goroutines of a write pipeline can outlive a failed
+		 * batch while still decoding a value they have read, and the next
+		 * commit or close remaps the file under them which crashes the process.
+		 * Reads inside write transactions are few, so we hand out a copy. */
+		return bytes.Clone(v)
+	}
+	return v
 }
 
 func (b bboltBucket) Put(k, v []byte) error {
